@@ -5,8 +5,11 @@ import vf
 SPEC = dict(
     level="proof",
     harness=dict(pkg_dir="gitindex", run="TestVerifC13$", files=["gitindex/zz_verif_c13_test.go"],
-                 n_quick=int(os.environ.get("VERIF_C13_N", "20")), n_thorough=int(os.environ.get("VERIF_C13_N", "200"))),
-    runner=dict(imports=["From ZV Require Import Lib.Base Model.Delta."], case_type="c13case",
+                 n_quick=int(os.environ.get("VERIF_C13_N", "120")), n_thorough=int(os.environ.get("VERIF_C13_N", "2000")),
+                 # a build allocates >= 4 tables of 16 MiB; the harness collects after every build, and with MADV_FREE the
+                 # freed pages stay resident instead of being faulted in again (page faults dominated the run time)
+                 env={"GODEBUG": "madvdontneed=0"}),
+    runner=dict(imports=["From ZV Require Import Lib.Base Model.Delta Model.DeltaDecide."], case_type="c13case",
                 mismatch_fn="c13_mismatches", shard=100),
     rule="generated histories over 1-3 branches (+ HEAD indexed as an alias of main in 25%): a REAL bare git repository "
          "(git init + git fast-import, one commit per changed branch and step), 2-6 steps of 0-3 edits each (add, modify, "
